@@ -198,6 +198,15 @@ def _alphabet(rnd):
         atoms.append(t.replace(" == ", "==").replace(" >= ", ">=").replace(" != ", "!="))
         atoms.append(" " + t + "  ")
         atoms.append(t.replace('"', "'"))
+    # literals that contain the *other* quote character, marker keywords or blanks: texts that become equal under a
+    # plausible-but-wrong normalisation of the cache key (quote style, whitespace) although they are different markers
+    if rnd.random() < 0.6:
+        atoms.append("""os_name == "a' or os_name == 'b" """.strip())
+        atoms.append("""os_name == 'a' or os_name == "b" """.strip())
+        atoms.append("""sys_platform == "x  y" """.strip())
+        atoms.append("""sys_platform == "x y" """.strip())
+        atoms.append("""os_name == 'a" and os_name != "b' """.strip())
+        atoms.append("""os_name == "a" and os_name != "b" """.strip())
     up = [t for t in atoms if t.startswith(("os_name ==", "sys_platform ==", "platform_machine ==", "platform_system ==",
                                             "implementation_name ==", "platform_python_implementation =="))]
     if up:
@@ -360,8 +369,8 @@ def _run_history(ctx, atoms, ops, fresh_budget):
 
 def run(ctx):
     rnd = ctx.rnd
-    n_hist = 5 if ctx.tier == "quick" else 60
-    fresh = 4 if ctx.tier == "quick" else 6
+    n_hist = 9 if ctx.tier == "quick" else 60
+    fresh = 6 if ctx.tier == "quick" else 8
     for h in range(n_hist):
         atoms = _alphabet(rnd)
         ops = _history(rnd, atoms, rnd.randint(40, 120))
